@@ -222,11 +222,14 @@ class CodemodExecutionContext:
 
     @cached_property
     def find_and_fix_paths(self) -> list[Path]:
+        # A `path:line` pattern never excludes a whole file, so only file-level
+        # patterns replace the default excludes
+        file_level_excludes = [pat for pat in self.path_exclude if ":" not in pat]
         return match_files(
             self.directory,
             self.files_to_analyze,
             # None is effectively a sentinel value to indicate that the default include/exclude paths should be used
-            self.path_exclude or None,
+            file_level_excludes or None,
             self.path_include or None,
         )
 
